@@ -212,12 +212,23 @@ def beh_str(b):
 # harness runs
 # ------------------------------------------------------------------------------------------------
 
-def n_ok_in_batch(res):
-    return sum(1 for x in res if x.get("ok"))
+def split_runs(lines):
+    """A log file holds several runs, each starting with a Reset record."""
+    runs, cur = [], []
+    for ln in lines:
+        if '"Reset"' in ln and cur:
+            runs.append(cur)
+            cur = []
+        cur.append(ln)
+    if cur:
+        runs.append(cur)
+    return runs
 
 
 def run_gated(pool_bin, behaviours, work, tag, chunk=300):
-    """Forces the behaviours through the real pool. Returns (n_ok, fails [(behaviour, result)], trace files, steps)."""
+    """Forces the behaviours through the real pool.  Returns (n_ok, fails, trace files, steps, not run).
+    fails = [(behaviour, result, log lines of that run or None)]: runs in which the real code left the model's
+    schedule (result["diverged"]) and was then released to finish freely, and/or did not finish (result["hang"])."""
     fails = []
     files = []
     n_ok = 0
@@ -229,27 +240,51 @@ def run_gated(pool_bin, behaviours, work, tag, chunk=300):
         tf = os.path.join(work, "gated-%s-%d.ndjson" % (tag, part))
         part += 1
         data = "".join(json.dumps(b, separators=(",", ":")) + "\n" for b in batch)
-        p = run_bin(pool_bin, ["gated", tf], stdin_data=data, timeout=600)
+        p = run_bin(pool_bin, ["gated", tf], stdin_data=data, timeout=900)
         res = parse_jsonl(p.stdout)
         summ = [x for x in res if x.get("summary")]
+        by_id = {b["id"]: b for b in batch}
+        bad = [x for x in res if not x.get("summary") and not x.get("ok", True)]
+        div_runs = split_runs(open(tf + ".div").read().splitlines()) if os.path.exists(tf + ".div") else []
+        for k, x in enumerate(bad):
+            fails.append((by_id.get(x.get("id")), x, div_runs[k] if k < len(div_runs) else None))
         if p.returncode != 0 or not summ:
             # the harness never exits non-zero by itself: the pool took the process down (abort, double panic ...)
-            crashed = batch[min(len(batch) - 1, n_ok_in_batch(res))]
-            fails.append((crashed, {"ok": False, "fail": {"kind": "crash", "step": None, "action": None,
-                                                          "detail": "harness process ended with rc=%s: %s" % (p.returncode, p.stderr[-600:])}}))
+            seen = sum(1 for x in res if not x.get("summary"))
+            crashed = batch[min(len(batch) - 1, seen)]
+            fails.append((crashed, {"ok": False, "crash": "harness process ended with rc=%s: %s" % (p.returncode, p.stderr[-600:])}, None))
             break
         s = summ[0]
         n_ok += s["ok"]
         steps += s["steps"]
         files.append(tf)
-        bad = [x for x in res if not x.get("summary") and not x.get("ok", True)]
-        if bad:
-            # the process stopped at the failing behaviour (threads may be stuck inside the pool): go on after it
-            fails.append((batch[s["behaviours"] - 1], bad[0]))
+        if s["behaviours"] < len(batch):
+            # the process stopped early (a run that did not finish, or three divergences): go on after it
             todo = batch[s["behaviours"]:] + todo
-            if len(fails) >= 3:
-                break
+        if len(fails) >= 3:
+            break
     return n_ok, fails, files, steps, len(todo)
+
+
+def judge(path, work_id):
+    """The property by itself (Trace_PoolProp) on a recorded log: (satisfied, offending records)."""
+    r = run_tlc("Trace_PoolProp.tla", "Trace_PoolProp.cfg", D, workers=1, env={"TRACE": path}, timeout=900, work_id=work_id,
+                deque=True, heap="2g")
+    badl = []
+    for x in r.prints:
+        if isinstance(x, dict) and "bad" in x:
+            badl = x["bad"]
+    return (r.violation is None), badl, r
+
+
+def judge_lines(lines, work, work_id):
+    tp = os.path.join(work, work_id + ".ndjson")
+    with open(tp, "w") as f:
+        f.write("\n".join(lines) + "\n")
+    try:
+        return judge(tp, work_id)
+    finally:
+        os.remove(tp)
 
 
 def validate_trace(path, work_id, cfg="Trace_ThreadPool.cfg"):
@@ -419,15 +454,32 @@ def _run(ctx, thorough, pool_bin, work, rng, replay):
 
     # ---------------------------------------------------------------- 3. force them through the real pool
     n_ok, fails, gfiles, gsteps, skipped = run_gated(pool_bin, behaviours, work, "d")
-    for b, f in fails:
-        fl = f.get("fail", {})
+    for k, (b, f, log) in enumerate(fails):
+        where = origin.get(beh_key(b), "?") if b else "?"
+        if "crash" in f:
+            # a task (or the pool) took the whole process down: "a task that panics affects nothing but itself"
+            ctx.violation("gated replay (%s): %s" % (where, f["crash"]), {"kind": "gated", "behaviour": b, "result": f})
+            continue
+        dv, hg = f.get("diverged"), f.get("hang")
+        sat, badl = (False, [])
+        if log:
+            sat, badl, jr = judge_lines(log, work, "c08-jg%d" % k)
+            ctx.add_tlc("property-level judgement of a forced run that left the model's schedule", jr)
+        desc = "gated replay of a TLC behaviour (%s): %s; last events %s" % (
+            where, "; ".join("%s at step %s %s: %s" % (x.get("kind"), x.get("step"), x.get("action"), x.get("detail")) for x in (dv, hg) if x),
+            f.get("last_events"))
+        if f.get("completed") and sat:
+            # the code did not take the steps in the order / with the arguments of ThreadPool.tla, but the run as a whole
+            # (forced prefix + free completion) satisfies the property itself
+            ctx.drift("code model ThreadPool.tla (forced schedule)", desc + " - the run satisfies C08 as judged by Trace_PoolProp",
+                      {"kind": "gated", "behaviour": b, "result": f})
+            continue
         dev = None
-        begin = [s for s in b["steps"] if s["a"] == "Pool_DropBegin"]
-        if fl.get("kind") == "hang" and fl.get("action") == "Pool_DropHandles" and begin and begin[0]["x"] == 1:
+        begin = [x for x in (b or {}).get("steps", []) if x["a"] == "Pool_DropBegin"]
+        if not f.get("completed") and begin and begin[0]["x"] == 1 and not any(x["a"] == "Pool_Stop" for x in b["steps"]):
             dev = "DropJoinsRecovery"
-        ctx.violation("gated replay of a TLC behaviour (%s): %s at step %s %s: %s; last events %s" % (
-            origin.get(beh_key(b), "?"), fl.get("kind"), fl.get("step"), fl.get("action"), fl.get("detail"), f.get("last_events")),
-            {"kind": "gated", "behaviour": b, "result": f}, dev=dev)
+        ctx.violation(desc + "; property-level judgement: %s" % json.dumps(badl[:3]),
+                      {"kind": "gated", "behaviour": b, "result": f, "judge": badl[:5]}, dev=dev)
     nontrivial_beh = sum(1 for b in behaviours[:n_ok + len(fails)] if any(s["a"] == "Worker_Run" for s in b["steps"]))
     ctx.add_part("gated schedule replay", behaviours=len(behaviours), forced_ok=n_ok, failed=len(fails), not_run=skipped,
                  model_steps_forced=gsteps, witnesses=n_wit, edge_cover=cover)
@@ -484,8 +536,11 @@ def _run(ctx, thorough, pool_bin, work, rng, replay):
         for g in gfiles:
             f.write(open(g).read())
     def checked(tf, i):
+        return checked_cfg(tf, "c08-tr%d" % i, trace_cfg.get(tf, T0))
+
+    def checked_cfg(tf, wid, cfg):
         try:
-            return validate_trace(tf, "c08-tr%d" % i, cfg=trace_cfg.get(tf, T0))
+            return validate_trace(tf, wid, cfg=cfg)
         except vlib.ToolError as e:
             # a log TLC cannot even evaluate (a field outside every domain of the model) is a rejected log, not a tool problem
             if "timed out" not in str(e) and ("Attempted to" in str(e) or "outside the domain" in str(e) or "not in the domain" in str(e)):
@@ -494,38 +549,82 @@ def _run(ctx, thorough, pool_bin, work, rng, replay):
                 r.out = str(e)
                 return r
             raise
-    vjobs = [(tf, (lambda tf=tf, i=i: checked(tf, i))) for i, tf in enumerate(rfiles + [dall])]
+    # Two levels.  Level 1: the code model (Trace_ThreadPool) must explain every record - it follows today's
+    # implementation step by step (hook order, one Shutdown per stop, handle tables, monitor counts ...).
+    # Level 2: the property by itself (Trace_PoolProp), from records that do not depend on the pool's internals.
+    # Level 2 rejects => VIOLATION.  Level 1 rejects but level 2 accepts => SPEC-DRIFT (the model needs updating;
+    # the property holds on that run), exit code unchanged.
+    allf = rfiles + [dall]
+    vjobs = [(("l1", tf), (lambda tf=tf, i=i: checked(tf, i))) for i, tf in enumerate(allf)]
+    vjobs += [(("jg", tf), (lambda tf=tf, i=i: judge(tf, "c08-jf%d" % i))) for i, tf in enumerate(allf)]
     vres = par(vjobs, 4)
     validated_runs = 0
-    for tf in rfiles + [dall]:
-        r = vres[tf]
-        nrec = sum(1 for _ in open(tf))
-        ctx.add_tlc("trace validation of %s (%d records)" % (os.path.basename(tf), nrec), r)
-        hang = [h for (hf, h) in hangs if hf == tf]
-        rej = rejection(r)
-        if r.violation is None and not hang:
-            validated_runs += sum(1 for line in open(tf) if '"Reset"' in line)
-            continue
-        if r.violation not in (None, "postcondition"):
-            ctx.violation("an invariant of ThreadPool fails on a state of the recorded run: %s %s" % (r.violation, r.violated_name),
-                          {"kind": "trace", "file": os.path.basename(tf), "tlc": r.trace[-120:]})
-            continue
-        if hang:
-            # the harness saw a hang: is the log exactly what the open deviation predicts?
-            r2 = validate_trace(tf, "c08-djr", cfg="Trace_ThreadPool_djr.cfg")
-            dev = "DropJoinsRecovery" if (r2.violation is None and hang[0].get("what", "").startswith("drop()") and not hang[0].get("stop")) else None
-            ctx.violation("real run hangs: %s" % json.dumps(hang[0]), {"kind": "trace", "hang": hang[0], "log_tail": open(tf).read().splitlines()[-40:]}, dev=dev)
-            continue
-        pos = rej["rejected_at"] if rej else 0
-        st = model_state_before(tf, pos, work) if rej else None
+    judged_runs = 0
+    for fi, tf in enumerate(allf):
         lines = open(tf).read().splitlines()
-        # the run that contains the inexplicable record
-        start = max(i for i in range(min(pos, len(lines))) if '"Reset"' in lines[i]) if pos else 0
-        ctx.violation("recorded run not explained by ThreadPool.tla at record %s: %s; model state before it: %s" % (
-            pos, json.dumps(rej["context"][-1]) if rej else "?", json.dumps(st)),
-            {"kind": "trace", "rejected_at": pos - start, "model_state": st, "log": lines[start:pos + 5]})
+        resets = [i for i, ln in enumerate(lines) if '"Reset"' in ln]
+
+        def bounds(pos):            # pos: 1-based record number -> [start, end) of its run, 0-based
+            st = max([i for i in resets if i <= pos - 1] or [0])
+            en = min([i for i in resets if i > st] or [len(lines)])
+            return st, en
+        hang = [h for (hf, h) in hangs if hf == tf]
+        sat, badl, jr = vres[("jg", tf)]
+        ctx.add_tlc("property-level judgement (Trace_PoolProp) of %s (%d records)" % (os.path.basename(tf), len(lines)), jr)
+        judged_runs += len(resets)
+        bad_runs = set()
+        if not sat and not badl:
+            raise vlib.ToolError("Trace_PoolProp failed without naming a record: %s" % jr.out[-800:])
+        for x in badl:
+            st, en = bounds(x["at"])
+            if st in bad_runs:
+                continue
+            bad_runs.add(st)
+            dev = None
+            if hang and x["rec"].get("ev") == "C_Hang":
+                # the harness saw a hang: is the log exactly what the (repaired) deviation predicts?
+                r2 = validate_trace(tf, "c08-djr", cfg="Trace_ThreadPool_djr.cfg")
+                if r2.violation is None and hang[0].get("what", "").startswith("drop()") and not hang[0].get("stop"):
+                    dev = "DropJoinsRecovery"
+            ctx.violation("recorded run violates C08 - %s (record %d: %s)%s" % (
+                x["why"], x["at"] - st, json.dumps(x["rec"]), ("; " + json.dumps(hang[0])) if hang and x["rec"].get("ev") == "C_Hang" else ""),
+                {"kind": "trace", "judge": x, "log": lines[st:en][:3000]}, dev=dev)
+        # level 1, run by run after a rejection (one inexplicable run must not hide the others)
+        r = vres[("l1", tf)]
+        offset = 0
+        cur = tf
+        for attempt in range(4):
+            nrec = len(lines) - offset
+            ctx.add_tlc("trace validation (code model) of %s%s (%d records)" % (os.path.basename(tf), "" if attempt == 0 else " after record %d" % offset, nrec), r)
+            if r.violation is None:
+                validated_runs += sum(1 for i in resets if i >= offset)
+                break
+            if r.violation != "postcondition":
+                if not bad_runs:
+                    ctx.drift("code model ThreadPool.tla (recorded runs)", "invariant %s of the code model fails on a state of a recorded run of %s; every run of the "
+                              "file satisfies C08 as judged by Trace_PoolProp" % (r.violated_name, os.path.basename(tf)),
+                              {"kind": "trace", "file": os.path.basename(tf), "tlc": r.trace[-120:]})
+                break
+            rej = rejection(r)
+            pos = (rej["rejected_at"] if rej else 1) + offset
+            st, en = bounds(pos)
+            validated_runs += sum(1 for i in resets if offset <= i < st)
+            if st not in bad_runs:
+                mst = model_state_before(cur, pos - offset, work) if rej else None
+                ctx.drift("code model ThreadPool.tla (recorded runs)",
+                          "record %d of a run (%s) is not explained by the code model; model state before it: %s - the run satisfies C08 as judged by Trace_PoolProp" % (
+                              pos - st, json.dumps(lines[min(pos - 1, len(lines) - 1)])[:300], json.dumps(mst)),
+                          {"kind": "trace", "rejected_at": pos - st, "model_state": mst, "log": lines[st:en][:3000]})
+            if en >= len(lines) or attempt == 3:
+                break
+            offset = en
+            cur = os.path.join(work, "rest-%d-%d.ndjson" % (fi, attempt))
+            with open(cur, "w") as f:
+                f.write("\n".join(lines[offset:]) + "\n")
+            r = checked_cfg(cur, "c08-trr%d" % fi, trace_cfg.get(tf, T0))
     ctx.add_part("randomised real runs", runs=total_runs, events=total_events, lifecycle_shapes=shapes, runs_with_monitor_stream=monitored, barrier_runs_n_tasks_waiting_for_each_other=barriers, runs_with_restart=restarts, runs_with_tasks_outliving_stop_and_drop=outliving,
-                 distinct_interleavings=len(fingerprints), hangs=len(hangs))
+                 distinct_interleavings=len(fingerprints), hangs=len(hangs),
+                 runs_judged_by_property_alone=judged_runs, spec_drifts=len(ctx.drifts))
 
     # ---------------------------------------------------------------- the exhaustive runs started at the beginning
     for cfg, w in mcs:
@@ -560,45 +659,74 @@ def _run(ctx, thorough, pool_bin, work, rng, replay):
 
 
 def selftest(ctx, pool_bin, work, dall, behaviours):
-    """A corrupted log must be rejected by TLC and a corrupted behaviour by the harness; otherwise the check is blind."""
+    """Both levels must see what they are meant to see, otherwise the check is blind (exit 2):
+    - a log corrupted in a hook detail is rejected by the code model and ACCEPTED by the property-level judge
+      (such a difference on a real tree would be SPEC-DRIFT, not a violation);
+    - a log corrupted in what the property is about (a body entered twice, a body never entered, a call that
+      never returned, live workers at the end) is rejected by both;
+    - a behaviour with a corrupted expectation is reported as a divergence by the gated replay."""
     lines = open(dall).read().splitlines()[:4000]
     # cut at a run boundary
     last_reset = max(i for i, ln in enumerate(lines) if '"Reset"' in ln)
     if last_reset > 0:
         lines = lines[:last_reset]
     recs = [json.loads(ln) for ln in lines]
-    muts = []
-    i = next((k for k, r in enumerate(recs) if r["ev"] == "Task_Start"), None)
-    if i is not None:
-        m = copy.deepcopy(recs)
-        m[i]["a"] += 1
-        muts.append(("Task_Start reports another task", m))
-    i = next((k for k, r in enumerate(recs) if r["ev"] == "Worker_Recv" and r["b"] == 0), None)
+    muts = []   # (what, records, the property-level judge must reject it)
+
+    def first(pred):
+        return next((k for k, r in enumerate(recs) if pred(r)), None)
+    i = first(lambda r: r["ev"] == "Worker_Recv" and r["b"] == 0)
     if i is not None:
         m = copy.deepcopy(recs)
         m[i]["b"] = 2
-        muts.append(("Worker_Recv reports a disconnected channel instead of a task", m))
-    i = next((k for k, r in enumerate(recs) if r["ev"] == "Worker_Lock"), None)
+        muts.append(("Worker_Recv reports a disconnected channel instead of a task", m, False))
+    i = first(lambda r: r["ev"] == "Worker_Lock")
     if i is not None:
         m = copy.deepcopy(recs)
         del m[i]
-        muts.append(("one Worker_Lock record dropped", m))
-    i = next((k for k, r in enumerate(recs) if r["ev"] == "Rec_Joined" and r["b"] == 1), None)
+        muts.append(("one Worker_Lock record dropped", m, False))
+    i = first(lambda r: r["ev"] == "Rec_Joined" and r["b"] == 1)
     if i is not None:
         m = copy.deepcopy(recs)
         m[i]["b"] = 0
-        muts.append(("Rec_Joined claims the handle was gone", m))
+        muts.append(("Rec_Joined claims the handle was gone", m, False))
+    i = first(lambda r: r["ev"] == "Task_Start")
+    if i is not None:
+        m = copy.deepcopy(recs)
+        m.insert(i + 1, dict(m[i]))
+        muts.append(("a task body entered twice", m, True))
+        m = copy.deepcopy(recs)
+        del m[i]
+        muts.append(("a task body never entered", m, True))
+    i = first(lambda r: r["ev"] == "C_Ret" and r["a"] == 4)
+    if i is not None:
+        m = copy.deepcopy(recs)
+        del m[i]
+        muts.append(("drop() never returned (caller-level record; the code model only follows the hooks)", m, True))
+    i = first(lambda r: r["ev"] == "Quiesced")
+    if i is not None:
+        m = copy.deepcopy(recs)
+        m[i]["b"] = 1
+        muts.append(("a worker thread still alive at the end", m, True))
     jobs = []
-    for k, (what, m) in enumerate(muts):
+    for k, (what, m, prop) in enumerate(muts):
         tf = os.path.join(work, "mut-%d.ndjson" % k)
         vlib.write_lines(tf, m)
-        jobs.append((what, (lambda tf=tf, k=k: validate_trace(tf, "c08-mut%d" % k))))
+        jobs.append((("l1", what), (lambda tf=tf, k=k: validate_trace(tf, "c08-mut%d" % k))))
+        jobs.append((("jg", what), (lambda tf=tf, k=k: judge(tf, "c08-mutj%d" % k))))
     out = par(jobs, 4)
     rejected = 0
-    for what, r in out.items():
-        if r.violation is None:
+    judged = 0
+    for what, m, prop in muts:
+        if out[("l1", what)].violation is None and "caller-level" not in what:
             raise vlib.ToolError("binding self-test: corrupted log accepted by Trace_ThreadPool (%s)" % what)
-        rejected += 1
+        rejected += 1 if out[("l1", what)].violation is not None else 0
+        sat = out[("jg", what)][0]
+        if prop and sat:
+            raise vlib.ToolError("binding self-test: Trace_PoolProp accepted a log that violates the property (%s)" % what)
+        if not prop and not sat:
+            raise vlib.ToolError("binding self-test: Trace_PoolProp rejected a log that differs only in a hook detail (%s): %s" % (what, out[("jg", what)][1][:2]))
+        judged += 1
     # corrupted behaviours
     bad = []
     for b in behaviours:
@@ -620,34 +748,50 @@ def selftest(ctx, pool_bin, work, dall, behaviours):
     caught = 0
     for what, m in bad:
         n_ok, fails, files, steps, skipped = run_gated(pool_bin, [m], work, "mut")
-        if not fails or fails[0][1].get("fail", {}).get("kind") != "mismatch":
-            raise vlib.ToolError("binding self-test: corrupted behaviour not rejected by the gated replay (%s)" % what)
+        f = fails[0][1] if fails else {}
+        if (f.get("diverged") or {}).get("kind") != "mismatch" or not f.get("completed"):
+            raise vlib.ToolError("binding self-test: corrupted behaviour not reported as a divergence by the gated replay (%s): %s" % (what, f))
+        sat = judge_lines(fails[0][2], work, "c08-mutb")[0] if fails[0][2] else False
+        if not sat:
+            raise vlib.ToolError("binding self-test: the freely completed run after a divergence was not accepted by Trace_PoolProp (%s)" % what)
         caught += 1
-    ctx.add_part("binding self-test", corrupted_logs_rejected=rejected, corrupted_behaviours_rejected=caught)
+    ctx.add_part("binding self-test", corrupted_logs_rejected_by_code_model=rejected, corrupted_logs_judged_correctly_by_property=judged,
+                 corrupted_behaviours_reported_as_divergence=caught)
 
 
 def _replay(ctx, pool_bin, work, replay):
     case = json.load(open(replay)).get("case", {})
+    ctx.cov["evaluations"] = 1
     if case.get("kind") == "gated":
         b = case["behaviour"]
+        b.setdefault("id", 0)
         n_ok, fails, files, steps, skipped = run_gated(pool_bin, [b], work, "replay")
-        ctx.cov["evaluations"] = 1
-        for bb, f in fails:
-            ctx.violation("gated replay: %s" % json.dumps(f.get("fail")), {"kind": "gated", "behaviour": bb, "result": f})
+        for bb, f, log in fails:
+            sat = judge_lines(log, work, "c08-replayj")[0] if log else False
+            if "crash" not in f and f.get("completed") and sat:
+                ctx.drift("code model ThreadPool.tla (forced schedule)", "replayed behaviour diverges from the model but satisfies C08: %s" % json.dumps(f.get("diverged")),
+                          {"kind": "gated", "behaviour": bb, "result": f})
+            else:
+                ctx.violation("gated replay: %s" % json.dumps({k: f.get(k) for k in ("diverged", "hang", "crash")}), {"kind": "gated", "behaviour": bb, "result": f})
         if not fails:
             r = validate_trace(files[0], "c08-replay")
             ctx.add_tlc("trace validation of the replayed run", r)
-            if r.violation:
-                ctx.violation("replayed run not explained by the model", {"kind": "trace", "log": open(files[0]).read().splitlines()})
+            sat, badl, jr = judge(files[0], "c08-replayj")
+            if not sat:
+                ctx.violation("replayed run violates C08: %s" % json.dumps(badl[:2]), {"kind": "trace", "log": open(files[0]).read().splitlines()})
+            elif r.violation:
+                ctx.drift("code model ThreadPool.tla (recorded runs)", "replayed run not explained by the code model", {"kind": "trace"})
     elif case.get("kind") == "trace" and case.get("log"):
         tf = os.path.join(work, "replay.ndjson")
         with open(tf, "w") as f:
             f.write("\n".join(case["log"]) + "\n")
         r = validate_trace(tf, "c08-replay")
         ctx.add_tlc("trace validation of the stored log", r)
-        ctx.cov["evaluations"] = 1
-        if r.violation:
-            ctx.violation("stored log not explained by the model: %s" % json.dumps(rejection(r)), case)
+        sat, badl, jr = judge(tf, "c08-replayj")
+        if not sat:
+            ctx.violation("stored log violates C08: %s" % json.dumps(badl[:2]), case)
+        elif r.violation:
+            ctx.drift("code model ThreadPool.tla (recorded runs)", "stored log not explained by the code model: %s" % json.dumps(rejection(r)), case)
     else:
         raise vlib.ToolError("replay file has no replayable case")
     ctx.cov["distinct_nontrivial"] = 2
